@@ -5,7 +5,8 @@ the fan triangulation covers the polygon and the quadrature loops pair nodes and
 of x, y, z reach the Jacobian (constant propagation of `dim`); degrees are converted before the spherical->Cartesian map;
 corners are gathered per face through the n_nodes_per_face prefix; face_areas cache = default-argument computation.
 who may store face_areas (the getter/setter and the MPAS reader, whose file areas are divided by sphere_radius**2).
-The grid's face_areas are not assigned through the setter from a computation with the caller's rule/order; library tolerances keep the pinned values."""
+The grid's face_areas are not assigned through the setter from a computation with the caller's rule/order; library tolerances keep the pinned values.
+No sub-triangle is skipped by comparing its area (length of the cross product of two edge vectors) with the length tolerance (F-DIM/area-vs-tolerance, contradiction rule over uxarray/grid)."""
 
 import ast
 from fractions import Fraction
@@ -33,6 +34,8 @@ def _const_env(path):
 
 def check(run):
     P = run.program
+    from ..rules import sqtol as _sq
+    _sq.check_area(run, P, ("uxarray/grid/",))
     from ..rules import consts as _consts
     _consts.check(run, P)
     run.explanation = (
